@@ -32,7 +32,7 @@ TRUSTED = ["modelled not verified: BLAKE3; SQL of node_infos_by_topics/node_info
 RULE = ("quick: exhaustive honest sessions over a 2-topic universe (all 16 topic-set pairs x 4 sharing configs x 3 address-book shapes) + 150 random honest "
         "sessions (universe <= 12 topics, overlap patterns empty/disjoint/equal/subset/superset/random, books <= 8 nodes with stale / no-transport / self / remote "
         "entries) + all scripts of length <= 2 (and length 3 after a valid first item) for each side + 180 random one-sided scripted-peer cases (valid scripts, single mutations, random item sequences incl. stream errors, the peer closing its receiver after 0..3 messages, wrong-direction hashes, raw and "
-        "junk words); thorough: universe <= 40, books <= 20, 2500 + 2500 cases. non-trivial honest = non-empty intersection that differs from both sets; "
+        "junk words); thorough: universe <= 40, books <= 20, 1200 + 1200 random cases. non-trivial honest = non-empty intersection that differs from both sets; "
         "non-trivial script = real side read at least one item")
 
 UNIVERSE_MAX = 60
@@ -202,7 +202,7 @@ def gen(tier, rng):
     if tier == "quick":
         nh, ns, umax, nmax = 150, 180, 12, 8
     else:
-        nh, ns, umax, nmax = 2500, 2500, 40, 20
+        nh, ns, umax, nmax = 1200, 1200, 40, 20
     for ta in subsets:
         for tb in subsets:
             for ra, rb in itertools.product((0, 1), repeat=2):
